@@ -5,6 +5,8 @@
 // handler cases build real hooks (bash stubs scripted by the harness) around the real
 // hook.Manager, the real ShellOperator.conversionEventHandler (verif export) and the real
 // conversion.WebhookHandler router (httptest), and post one ConversionReview.
+// params cases (params.go): the same stack with conversion bindings that carry `group` /
+// `includeSnapshotsFrom`; what every executed hook read is observed field by field.
 package c15
 
 import (
@@ -17,6 +19,7 @@ import (
 	"os"
 	"path/filepath"
 	"regexp"
+	"sort"
 	"strconv"
 	"strings"
 	"time"
@@ -65,6 +68,20 @@ type HookSettings struct {
 	Burst      int `json:"burst"`       // executionBurst (0 = default 1; negative with a positive interval: never runnable)
 }
 
+// GB is a `kubernetes` or `schedule` binding of a hook as far as grouping goes: name "k<Name>" / "s<Name>",
+// group "g<Group>" (0 = no group)
+type GB struct {
+	Name  int `json:"name"`
+	Group int `json:"group,omitempty"`
+}
+
+// BP: the further parameters of a kubernetesCustomResourceConversion binding: group "g<Group>" (0 = none),
+// includeSnapshotsFrom = the kubernetes bindings "k<i>" of the same hook
+type BP struct {
+	Group   int   `json:"group,omitempty"`
+	Include []int `json:"include,omitempty"`
+}
+
 // Req is one ConversionReview of a session
 type Req struct {
 	Src     Ver    `json:"src"`
@@ -88,6 +105,11 @@ type Input struct {
 	// session: per hook its settings (nil = no settings block) and the requests, posted back to back
 	Settings []*HookSettings `json:"settings,omitempty"`
 	Requests []Req           `json:"requests,omitempty"`
+	// params (kind "params"): per hook its kubernetes / schedule bindings, and per hook and conversion binding
+	// (in the order of layout()) the binding's further parameters; missing entries = none
+	Kube    [][]GB `json:"kube,omitempty"`
+	Sched   [][]GB `json:"sched,omitempty"`
+	BParams [][]BP `json:"bparams,omitempty"`
 }
 
 type Obj struct {
@@ -103,6 +125,23 @@ type Inv struct {
 	Rule Rule   `json:"rule"`
 	Objs []Obj  `json:"objs"`
 	Who  string `json:"who,omitempty"`
+	// what the hook read in $BINDING_CONTEXT_PATH, field by field (kind "params" gives it to Coq)
+	Hook int       `json:"hook"`
+	Ctx  *Rendered `json:"ctx,omitempty"`
+}
+
+// Rendered: the binding context a hook read.  Names are kept as strings here and numbered for Coq.
+type Rendered struct {
+	N         int      `json:"n"` // number of binding contexts in the file (1 expected)
+	Binding   string   `json:"binding"`
+	Type      string   `json:"type"`                // "" = no such field
+	Snapshots []string `json:"snapshots,omitempty"` // keys, sorted
+	HasSnaps  bool     `json:"has_snapshots,omitempty"`
+	GroupName *string  `json:"groupName,omitempty"`
+	From      *string  `json:"fromVersion,omitempty"`
+	To        *string  `json:"toVersion,omitempty"`
+	HasReview bool     `json:"has_review,omitempty"` // "review" with a request
+	Objects   []Obj    `json:"objects,omitempty"`    // review.request.objects
 }
 type Answer struct {
 	Success bool   `json:"success"`
@@ -471,7 +510,75 @@ func readStamp(path string) float64 {
 	return f
 }
 
-func newRig(rules []Rule, nh int, settings []*HookSettings) (rg *rig, err error) {
+// convBinding: one kubernetesCustomResourceConversion binding of the generated configuration
+type convBinding struct {
+	Hook, Idx int
+	Name      string
+	Rules     []Rule
+}
+
+// layout: rule j is registered by hook j%nh, in bindings of up to two rules each
+func layout(rules []Rule, nh int) [][]convBinding {
+	if nh < 1 {
+		nh = 1
+	}
+	per := make([][]convBinding, nh)
+	for j, r := range rules {
+		h := j % nh
+		bs := per[h]
+		if len(bs) == 0 || len(bs[len(bs)-1].Rules) >= 2 {
+			bs = append(bs, convBinding{Hook: h, Idx: len(bs), Name: fmt.Sprintf("b%d-%d", h, len(bs))})
+		}
+		bs[len(bs)-1].Rules = append(bs[len(bs)-1].Rules, r)
+		per[h] = bs
+	}
+	return per
+}
+
+// the further parameters of conversion binding i of hook h; the other bindings of hook h
+func (in *Input) bp(h, i int) BP {
+	if in == nil || h >= len(in.BParams) || i >= len(in.BParams[h]) {
+		return BP{}
+	}
+	return in.BParams[h][i]
+}
+func (in *Input) kube(h int) []GB {
+	if in == nil || h >= len(in.Kube) {
+		return nil
+	}
+	return in.Kube[h]
+}
+func (in *Input) sched(h int) []GB {
+	if in == nil || h >= len(in.Sched) {
+		return nil
+	}
+	return in.Sched[h]
+}
+
+func groupName(g int) string { return fmt.Sprintf("g%d", g) }
+func kubeName(k int) string  { return fmt.Sprintf("k%d", k) }
+func schedName(k int) string { return fmt.Sprintf("s%d", k) }
+
+// numbers of the names, for Coq (9999 = a name the harness did not give)
+func numAfter(prefix, s string) int {
+	if strings.HasPrefix(s, prefix) {
+		if n, err := strconv.Atoi(s[len(prefix):]); err == nil && n >= 0 {
+			return n
+		}
+	}
+	return 9999
+}
+func convBindingNumber(name string) int { // "b<h>-<i>" -> 100*h + i
+	var h, i int
+	if n, err := fmt.Sscanf(name, "b%d-%d", &h, &i); err == nil && n == 2 && fmt.Sprintf("b%d-%d", h, i) == name {
+		return 100*h + i
+	}
+	return 9999
+}
+
+// extra: the params of an Input of kind "params" (nil otherwise): other bindings of the hooks and the further
+// parameters of the conversion bindings
+func newRig(rules []Rule, nh int, settings []*HookSettings, extra *Input) (rg *rig, err error) {
 	root, err := os.MkdirTemp("", "c15-")
 	if err != nil {
 		return nil, err
@@ -498,22 +605,30 @@ func newRig(rules []Rule, nh int, settings []*HookSettings) (rg *rig, err error)
 		nh = 1
 	}
 	rg = &rig{state: state, tmp: tmp, reg: map[Rule]registrar{}, hookOf: map[string]int{}, buckets: make([]*simBucket, nh)}
-	// rule j is registered by hook j%nh, in bindings of up to two rules each
 	type binding struct {
-		Name        string            `json:"name"`
-		CrdName     string            `json:"crdName"`
-		Conversions []conversion.Rule `json:"conversions"`
+		Name                 string            `json:"name"`
+		Group                string            `json:"group,omitempty"`
+		IncludeSnapshotsFrom []string          `json:"includeSnapshotsFrom,omitempty"`
+		CrdName              string            `json:"crdName"`
+		Conversions          []conversion.Rule `json:"conversions"`
 	}
 	perHook := make([][]binding, nh)
-	for j, r := range rules {
-		h := j % nh
-		bs := perHook[h]
-		if len(bs) == 0 || len(bs[len(bs)-1].Conversions) >= 2 {
-			bs = append(bs, binding{Name: fmt.Sprintf("b%d-%d", h, len(bs)), CrdName: crdName})
+	for h, cbs := range layout(rules, nh) {
+		for _, cb := range cbs {
+			b := binding{Name: cb.Name, CrdName: crdName}
+			p := extra.bp(h, cb.Idx)
+			if p.Group > 0 {
+				b.Group = groupName(p.Group)
+			}
+			for _, k := range p.Include {
+				b.IncludeSnapshotsFrom = append(b.IncludeSnapshotsFrom, kubeName(k))
+			}
+			for _, r := range cb.Rules {
+				b.Conversions = append(b.Conversions, toGoRule(r))
+				rg.reg[r] = registrar{fmt.Sprintf("h%02d.sh", h), cb.Name}
+			}
+			perHook[h] = append(perHook[h], b)
 		}
-		bs[len(bs)-1].Conversions = append(bs[len(bs)-1].Conversions, toGoRule(r))
-		perHook[h] = bs
-		rg.reg[r] = registrar{fmt.Sprintf("h%02d.sh", h), bs[len(bs)-1].Name}
 	}
 	for h := 0; h < nh; h++ {
 		name := fmt.Sprintf("h%02d.sh", h)
@@ -523,6 +638,29 @@ func newRig(rules []Rule, nh int, settings []*HookSettings) (rg *rig, err error)
 			cfg["kubernetesCustomResourceConversion"] = perHook[h]
 		} else {
 			cfg["onStartup"] = 1
+		}
+		// other bindings of the hook: they never fire here (no cluster; a crontab for the 30th of February);
+		// they exist so that a conversion binding can include their snapshots by name or by group
+		var kube, sched []map[string]any
+		for _, kb := range extra.kube(h) {
+			m := map[string]any{"name": kubeName(kb.Name), "apiVersion": "v1", "kind": "ConfigMap"}
+			if kb.Group > 0 {
+				m["group"] = groupName(kb.Group)
+			}
+			kube = append(kube, m)
+		}
+		for _, sb := range extra.sched(h) {
+			m := map[string]any{"name": schedName(sb.Name), "crontab": "0 0 30 2 *"}
+			if sb.Group > 0 {
+				m["group"] = groupName(sb.Group)
+			}
+			sched = append(sched, m)
+		}
+		if len(kube) > 0 {
+			cfg["kubernetes"] = kube
+		}
+		if len(sched) > 0 {
+			cfg["schedule"] = sched
 		}
 		if h < len(settings) && settings[h] != nil {
 			st := settings[h]
@@ -651,7 +789,10 @@ func (rg *rig) serve(src, desired Ver, nreq int, plan []Step) (o ReqObs) {
 		}
 		b, _ := os.ReadFile(filepath.Join(rg.state, fmt.Sprintf("ctx.%d", k)))
 		who, _ := os.ReadFile(filepath.Join(rg.state, fmt.Sprintf("who.%d", k)))
-		inv := Inv{Who: strings.TrimSpace(string(who))}
+		inv := Inv{Who: strings.TrimSpace(string(who)), Hook: 9999, Ctx: parseCtx(b)}
+		if h, ok := rg.hookOf[inv.Who]; ok {
+			inv.Hook = h
+		}
 		// tag only: was this hook's bucket empty when its Wait was called (just after the previous
 		// execution ended, or when the request was posted)?
 		called := posted
@@ -686,6 +827,64 @@ func (rg *rig) serve(src, desired Ver, nreq int, plan []Step) (o ReqObs) {
 	return
 }
 
+// parseCtx reads a binding-context file field by field (no expectation about its type)
+func parseCtx(b []byte) *Rendered {
+	rc := &Rendered{}
+	var ctxs []map[string]json.RawMessage
+	if err := json.Unmarshal(b, &ctxs); err != nil {
+		rc.N = -1
+		return rc
+	}
+	rc.N = len(ctxs)
+	if len(ctxs) == 0 {
+		return rc
+	}
+	c := ctxs[0]
+	str := func(k string) *string {
+		raw, ok := c[k]
+		if !ok {
+			return nil
+		}
+		var s string
+		if json.Unmarshal(raw, &s) != nil {
+			s = "(not a string: " + string(raw) + ")"
+		}
+		return &s
+	}
+	if p := str("binding"); p != nil {
+		rc.Binding = *p
+	}
+	if p := str("type"); p != nil {
+		rc.Type = *p
+	}
+	rc.GroupName, rc.From, rc.To = str("groupName"), str("fromVersion"), str("toVersion")
+	if raw, ok := c["snapshots"]; ok {
+		rc.HasSnaps = true
+		var m map[string]json.RawMessage
+		_ = json.Unmarshal(raw, &m)
+		for k := range m {
+			rc.Snapshots = append(rc.Snapshots, k)
+		}
+		sort.Strings(rc.Snapshots)
+	}
+	if raw, ok := c["review"]; ok {
+		var rv struct {
+			Request *struct {
+				Objects []json.RawMessage `json:"objects"`
+			} `json:"request"`
+		}
+		if json.Unmarshal(raw, &rv) == nil && rv.Request != nil {
+			rc.HasReview = true
+			var raws [][]byte
+			for _, r := range rv.Request.Objects {
+				raws = append(raws, r)
+			}
+			rc.Objects = parseObjs(raws)
+		}
+	}
+	return rc
+}
+
 // temp files of the executions must be gone
 func (rg *rig) leftovers() string {
 	if left, _ := os.ReadDir(rg.tmp); len(left) > 0 {
@@ -695,7 +894,21 @@ func (rg *rig) leftovers() string {
 }
 
 func runHandler(in Input) (o Obs) {
-	rg, err := newRig(in.Rules, in.NHooks, nil)
+	rg, err := newRig(in.Rules, in.NHooks, nil, nil)
+	if err != nil {
+		o.Err = err.Error()
+		return
+	}
+	defer rg.close()
+	r := rg.serve(in.Src, in.Desired, in.NReq, in.Plan)
+	o.ChainFound, o.Chain, o.Outs, o.Trace, o.Ans = r.ChainFound, r.Chain, r.Outs, r.Trace, r.Ans
+	o.Err = rg.leftovers()
+	return
+}
+
+// params: hooks whose conversion bindings carry group / includeSnapshotsFrom (and that have other bindings)
+func runParams(in Input) (o Obs) {
+	rg, err := newRig(in.Rules, in.NHooks, nil, &in)
 	if err != nil {
 		o.Err = err.Error()
 		return
@@ -709,7 +922,7 @@ func runHandler(in Input) (o Obs) {
 
 // a session: hooks with or without settings, several requests posted back to back
 func runSession(in Input) (o Obs) {
-	rg, err := newRig(in.Rules, in.NHooks, in.Settings)
+	rg, err := newRig(in.Rules, in.NHooks, in.Settings, nil)
 	if err != nil {
 		o.Err = err.Error()
 		return
@@ -728,6 +941,8 @@ func Run(in Input) Obs {
 		return runHandler(in)
 	case "session":
 		return runSession(in)
+	case "params":
+		return runParams(in)
 	}
 	return runSearch(in)
 }
@@ -960,6 +1175,9 @@ func Render(in Input, obs *Obs, crash string) core.Case {
 	}
 	if in.Kind == "session" {
 		return renderSession(in, obs, c)
+	}
+	if in.Kind == "params" {
+		return renderParams(in, obs, c)
 	}
 	if in.Kind == "handler" {
 		chain := "[]"
@@ -1639,7 +1857,9 @@ func oks(n int) []Step {
 }
 
 // Corpus: witnesses of the repaired defects F4a-F4d and past failures; runs first.
-func Corpus() []Input {
+func Corpus() []Input { return append(corpusBase(), corpusParams()...) }
+
+func corpusBase() []Input {
 	lin := []Rule{rl(0, 3), rl(3, 5), rl(5, 8)} // v1 -> v2 -> v3 -> v4
 	with := func(p []Step, k int, st Step) []Step {
 		q := append([]Step{}, p...)
@@ -1791,13 +2011,16 @@ func Gen(r *core.Rng, tier string) ([]core.In[Input], bool) {
 	g := &gen{r: r}
 	nGraphs, nHandler, nMsgRounds := 200, 160, 2
 	nSession, nSlow := 96, 2
+	nParams, nParamVariants := 60, 1
 	switch tier {
 	case "thorough":
 		nGraphs, nHandler, nMsgRounds = 10000, 1500, 40
 		nSession, nSlow = 1200, 12
+		nParams, nParamVariants = 1500, 4
 	case "search":
 		nGraphs, nHandler, nMsgRounds = 1500, 300, 6
 		nSession, nSlow = 240, 2
+		nParams, nParamVariants = 300, 2
 	}
 	for i := 0; i < nGraphs; i++ {
 		shape := shapes[g.r.Intn(len(shapes))]
@@ -1879,11 +2102,17 @@ func Gen(r *core.Rng, tier string) ([]core.In[Input], bool) {
 			add(Input{Kind: "search", Shape: "exhaustive", Spell: "mixed", Rules: mrules, Queries: mq, Shared: g.r.Bool()}, "exhaustive-respelled")
 		}
 	}
+	// binding parameters: every way of giving group / includeSnapshotsFrom to the bindings along a line of 1-4
+	// steps, then random graphs with random parameters.  Generated last: the other streams keep their inputs.
+	g.positionsStream(func(in Input) { add(in, "params-positions") }, nParamVariants)
+	for i := 0; i < nParams; i++ {
+		add(g.paramsCase(), "params")
+	}
 	return ins, false
 }
 
 var Driver = core.Driver[Input, Obs]{
 	Spec: core.Spec{Property: "C15", Imports: []string{"C15_Model", "C15_Spec", "C15_Corr"}, Corr: "C15_Corr", Triggers: nil, ShrinkKey: "rules",
-		Rule: "search cases: a generated rule graph (chains, forks after k steps, diamonds, cycles, random; near-miss names v1/v10/v1beta1/v1alpha1/v2/v2beta1/v20; spelt short, with group, or mixed) and all (from,to) pairs queried through the real ChainStorage.FindConversionChain on a fresh storage per query and on a shared one; every returned chain is judged by Coq (valid_chain), every nil by reachable, found/not-found is compared with the model. handler cases: real hooks (bash stubs) + real hook.Manager + real conversionEventHandler + real conversion.WebhookHandler router, one ConversionReview, scripted outcome per hook run (ok, exit 1, bad JSON, empty, failedMessage with/without objects, failedMessage \"\"/null/not a string, failedMessage of a hook that exits 1, fewer/more objects, wrong/mixed versions, early jump, no objects); hook runs (registrar, rule, objects received) and the answer compared with the model: result.status, the converted objects, and result.message BYTE FOR BYTE (no text is classified by the harness; the model C15_Model.serve produces the text of every message, the Spec demands that a failing hook's failedMessage is the answer's message). failedMessage texts are free text by class (tags msg:<class>, msghas:<feature>, msgspell:<JSON spelling in the response file: std|raw|uall|mixed>): plain, percent (%d %s %v %w %% %[1]d, trailing %, %2F ...), quote (quotes, backslashes, text that reads like an escape), newline (newlines, tabs, control bytes incl. NUL), unicode (Cyrillic, CJK, astral, U+2028, BOM, U+FFFD), space (leading/trailing blanks, a lone blank), html (< > &), lookalike (texts that read like the operator's own messages, null, {}), long (150-300 bytes). Streams: corpus (witnesses of F4a-F4d, message witnesses, sessions with settings), random, two-groups (informational, outside the domain), handler (half of the faults concern the failedMessage), messages (every message class in every JSON spelling on a 1-3 step chain), exhaustive (thorough: every rule set of <=5 rules over the 4 versions v1,v10,v1beta1,v2 incl. self-rules, all 16 pairs, fresh and shared, plus one re-spelling). session cases (kind:session): the same real stack, but hooks with `settings` (executionMinInterval 5-60 ms, a few of 1-2 s; executionBurst default/1/2/3; also interval 0 / negative = no limit, and hooks without settings beside limited ones), rules on a line of 1-3 steps (+ way back / side branch) registered by 1-3 hooks so that one hook serves several steps of a chain, and 1-3 ConversionReviews posted back to back to ONE operator (shared limiters and chain cache); per request the chain, the hook runs and the answer are compared with C15_Model.serve_session (every step through the hook-run task and RateLimitWait) and judged by P_search / P_handler: a rate-limited hook is delayed, never skipped. No clock reading enters the comparison (C15_session_state_irrelevant), so there is no timing tolerance; timing only decides what a case exercises: tag throttled-runs:<n> = hook runs that found their bucket empty (estimated from the stubs' timestamps), steps-by-a-hook-that-already-served-the-chain:<n>, interval:<class>, burst:<b>. A case lasts as long as its waits (generator budget 320 ms, slow cases 1-2 s); sessions are spread evenly over the workers. Informational stream session-never-runnable: a negative burst with a positive interval allows no execution of the hook at all (outside C15_Spec.settings_in_domain: compared with the model, not judged by P_handler). non-trivial = search: >=2 rules and a returned chain of >=2 steps; handler: chain found and at least one hook ran; session: every chain found and at least two hook runs. distinct = distinct input text"},
+		Rule: "search cases: a generated rule graph (chains, forks after k steps, diamonds, cycles, random; near-miss names v1/v10/v1beta1/v1alpha1/v2/v2beta1/v20; spelt short, with group, or mixed) and all (from,to) pairs queried through the real ChainStorage.FindConversionChain on a fresh storage per query and on a shared one; every returned chain is judged by Coq (valid_chain), every nil by reachable, found/not-found is compared with the model. handler cases: real hooks (bash stubs) + real hook.Manager + real conversionEventHandler + real conversion.WebhookHandler router, one ConversionReview, scripted outcome per hook run (ok, exit 1, bad JSON, empty, failedMessage with/without objects, failedMessage \"\"/null/not a string, failedMessage of a hook that exits 1, fewer/more objects, wrong/mixed versions, early jump, no objects); hook runs (registrar, rule, objects received) and the answer compared with the model: result.status, the converted objects, and result.message BYTE FOR BYTE (no text is classified by the harness; the model C15_Model.serve produces the text of every message, the Spec demands that a failing hook's failedMessage is the answer's message). failedMessage texts are free text by class (tags msg:<class>, msghas:<feature>, msgspell:<JSON spelling in the response file: std|raw|uall|mixed>): plain, percent (%d %s %v %w %% %[1]d, trailing %, %2F ...), quote (quotes, backslashes, text that reads like an escape), newline (newlines, tabs, control bytes incl. NUL), unicode (Cyrillic, CJK, astral, U+2028, BOM, U+FFFD), space (leading/trailing blanks, a lone blank), html (< > &), lookalike (texts that read like the operator's own messages, null, {}), long (150-300 bytes). Streams: corpus (witnesses of F4a-F4d, message witnesses, sessions with settings), random, two-groups (informational, outside the domain), handler (half of the faults concern the failedMessage), messages (every message class in every JSON spelling on a 1-3 step chain), exhaustive (thorough: every rule set of <=5 rules over the 4 versions v1,v10,v1beta1,v2 incl. self-rules, all 16 pairs, fresh and shared, plus one re-spelling). session cases (kind:session): the same real stack, but hooks with `settings` (executionMinInterval 5-60 ms, a few of 1-2 s; executionBurst default/1/2/3; also interval 0 / negative = no limit, and hooks without settings beside limited ones), rules on a line of 1-3 steps (+ way back / side branch) registered by 1-3 hooks so that one hook serves several steps of a chain, and 1-3 ConversionReviews posted back to back to ONE operator (shared limiters and chain cache); per request the chain, the hook runs and the answer are compared with C15_Model.serve_session (every step through the hook-run task and RateLimitWait) and judged by P_search / P_handler: a rate-limited hook is delayed, never skipped. No clock reading enters the comparison (C15_session_state_irrelevant), so there is no timing tolerance; timing only decides what a case exercises: tag throttled-runs:<n> = hook runs that found their bucket empty (estimated from the stubs' timestamps), steps-by-a-hook-that-already-served-the-chain:<n>, interval:<class>, burst:<b>. A case lasts as long as its waits (generator budget 320 ms, slow cases 1-2 s); sessions are spread evenly over the workers. Informational stream session-never-runnable: a negative burst with a positive interval allows no execution of the hook at all (outside C15_Spec.settings_in_domain: compared with the model, not judged by P_handler). params cases (kind:params): the same real stack, one ConversionReview, but the conversion bindings carry the further documented binding parameters - `group` (a group that names nothing, or one that has `kubernetes` / `schedule` bindings of the hook as members) and `includeSnapshotsFrom` - and the hooks have `kubernetes` / `schedule` bindings beside them (which never fire: no cluster, a crontab for 30 February); observed per hook execution: WHICH hook ran and WHAT IT READ in $BINDING_CONTEXT_PATH field by field (binding, type, keys of snapshots, groupName, fromVersion, toVersion, review.request.objects; the harness expects nothing about the type), and the answer; compared with C15_BindModel.serve_params (configuration loading with the group merge, links, HandleEvent, UpdateSnapshots, MapV1 statement by statement; snapshot keys as a set) and judged by C15_BindSpec.P_params: every executed hook read the conversion request of its step (type Conversion, the step's rule, the previous output) and is a hook that declared the rule. Streams: params-positions = every non-empty choice of bindings with parameters along a line of 1-4 steps served by one hook per step or by one hook for all steps (33 choices; variants group / group with members / includeSnapshotsFrom / both, quick: one variant per choice, thorough: all four), a fault in a quarter of them; params = random rule graphs and requests as in the handler stream with random parameters per binding (group 55%, includeSnapshotsFrom 35%) and 0-3 kubernetes / 0-1 schedule bindings per hook; corpus: a two-hook chain with mixed spellings whose second binding has a group, a grouped binding with members and an include, one hook with two grouped bindings over three steps, a grouped step that fails with its own message. Tags step-with-group:<only|first|middle|last>, step-with-includeSnapshotsFrom:<pos>, step-without-params:<pos>, ctx-type:<type read>, ctx-snapshots:<n keys|absent>, executed-steps-with-params:<n>. non-trivial = search: >=2 rules and a returned chain of >=2 steps; handler: chain found and at least one hook ran; session: every chain found and at least two hook runs; params: chain found and at least one executed step served by a binding with group or includeSnapshotsFrom. distinct = distinct input text"},
 	Gen: Gen, Run: Run, Render: Render, PerShard: 1000, Workers: 8, CaseTimout: 30 * time.Second,
 }
